@@ -401,6 +401,21 @@ def snapshot_covers_broadcast(ctx):
                 conds = [x.test] if isinstance(x, (ast.If, ast.IfExp)) else (list(x.ifs) if isinstance(x, ast.comprehension) else [])
                 if any('.export' in src(t) and 'Parameter' in src(t) for t in conds):
                     ok = True
+    if not ok:
+        # ... or in a function of the dispatcher module that the activation hands around as a value (`scope = [(m, _exported_parameters) ...]`)
+        unit = [g for g, site in _act_unit(m)]
+        for _ in range(2):
+            for g in list(unit):
+                for x in ast.walk(g.node):
+                    if isinstance(x, ast.Name) and isinstance(x.ctx, ast.Load):
+                        h = m.functions.get(f'{g.module.name}.{x.id}')
+                        if h is not None and h.cls is None and h not in unit:
+                            unit.append(h)
+        for g in unit:
+            for x in ast.walk(g.node):
+                conds = [x.test] if isinstance(x, (ast.If, ast.IfExp)) else (list(x.ifs) if isinstance(x, ast.comprehension) else [])
+                if any('.export' in src(t) and 'Parameter' in src(t) for t in conds):
+                    ok = True
     ctx.check(ok, f'{f.qualname}:snapshot predicate', f.node, 'exported parameters only',
               'the module snapshot is not restricted to exported parameters (or not to parameters)', f)
     from sa.rules.c05 import funnel_unit
@@ -924,3 +939,36 @@ def modules_enter_the_node_through_add_module(ctx):
                           'sends no initial update for it (later updates are broadcast all the same) and `activate <module>` is refused', f)
     if not n:
         raise AnchorMissing('no store into self.modules found in SecNode')
+
+
+@rule('C08.R10', min_instances=2)
+def the_running_flag_is_read_under_the_send_lock(ctx):
+    """send_reply of every interface: a failed send clears `running` inside send_lock, and the next sender decides whether it
+    may still write by reading `running` inside the same lock.  A value of the flag that was read BEFORE the lock was taken
+    and is used inside it (`alive = self.running` ... `with self.send_lock: self.running = alive and ...`) is stale when
+    another thread's send failed meanwhile: the second frame goes out behind the broken one and the connection is set running
+    again - it keeps its subscriptions although an update was lost"""
+    m = ctx.m
+    n = 0
+    for q, f in sorted(m.functions.items()):
+        if f.name != 'send_reply' or not f.module.name.startswith('frappy.protocol.interface') or f.cls is None:
+            continue
+        withs = [w for w in body_walk(f.node) if isinstance(w, ast.With) and any('send_lock' in src(i.context_expr) for i in w.items)]
+        if not withs:
+            continue
+        ctx.analysed(f)
+        n += 1
+        inside = {id(x) for w in withs for x in ast.walk(w)}
+        stale = []
+        for st in body_walk(f.node):
+            if isinstance(st, ast.Assign) and id(st) not in inside and len(st.targets) == 1 and isinstance(st.targets[0], ast.Name) \
+                    and any(isinstance(x, ast.Attribute) and x.attr == 'running' and dotted(x.value) == 'self' for x in ast.walk(st.value)):
+                nm = st.targets[0].id
+                if any(isinstance(x, ast.Name) and x.id == nm and isinstance(x.ctx, ast.Load) and id(x) in inside for w in withs for x in ast.walk(w)):
+                    stale.append(st)
+        ctx.check(not stale, f'{f.qualname}:running is read inside send_lock', stale[0] if stale else withs[0],
+                  'no value of self.running taken outside the lock is used inside it',
+                  f'`{src(stale[0]) if stale else ""}` is evaluated before send_lock is taken and decides inside the lock: after another thread\'s send failed '
+                  'meanwhile, this sender still writes its frame behind the broken one and sets running back to True - the connection stays activated with a lost update', f)
+    if n < 2:
+        raise AnchorMissing('send_reply with a send_lock block not found in the interfaces')
